@@ -228,6 +228,9 @@ class UnitRegistry:
             new_dimensions = base_value.units.dimensions
             base_value = base_value.in_base("mks")
             base_value = base_value.value
+            # in_base() hashes the quantity's unit, which recomputes the id of this
+            # registry from the table as it still is: reset it again
+            self._unit_system_id = None
         else:
             new_dimensions = self.lut[symbol][1]
 
